@@ -1,6 +1,7 @@
 // C19 replay driver: drives the real yakushima::permutation through (a) every (count, rank, free slot) from a family of
 // orderings and (b) seeded random walks; logs decoded words for TracePerm.tla.  Counts word stores per operation.
 #include "vh_json.h"
+#include "vh_fault.h"
 #include <random>
 #include <algorithm>
 using namespace yakushima;
@@ -31,6 +32,7 @@ static void all_ops_on(const std::vector<int>& ord) {
 }
 int main(int argc, char** argv) {
     unsigned seed = argc > 1 ? atoi(argv[1]) : 1; int walks = argc > 2 ? atoi(argv[2]) : 50; int fam = argc > 3 ? atoi(argv[3]) : 3;
+    vh::install_fault_handlers(100);
     verif::g_hook = hook; std::mt19937 rng(seed);
     for (int n = 0; n <= 15; n++) {
         std::vector<int> id; for (int i = 0; i < n; i++) id.push_back(i);
